@@ -334,3 +334,82 @@ def _newton_key(self, case, r):
 
 
 Newton.key = _newton_key
+
+
+# ---------------------------------------------------------------------------------------------- C14 stated directly
+def cross_solver_oracle(rep, tier, seed):
+    """C14 as the property states it, on the real code with its real LU solver: for the same problem, point, dt, rho, tau
+    and Newton variant, the four step solvers produce the same iterates over three Newton steps, and the three Newton
+    variants produce the same first step.  A search for failing inputs (tolerance 1e-7 relative on well-conditioned
+    systems), not the proof."""
+    import collections
+    import pygradflow.linear_solver as LS
+    from pygradflow.iterate import Iterate
+    from pygradflow.newton import newton_method
+    from pygradflow.params import NewtonType, StepSolverType
+    from ..gen import Gen
+    g = Gen(seed + 1414)
+    r = g.rng
+    stats = collections.Counter()
+    N = 300 if tier == "thorough" else 60
+
+    def run_one(case, kind, nk, conds):
+        spec, problem, params = build(case, newton_type=NewtonType[NKINDS[nk]], step_solver_type=StepSolverType[KINDS[kind]])
+        old = LS.linear_solver
+
+        def spy(mat, solver_type, symmetric=False):
+            try:
+                conds.append(float(np.linalg.cond(mat.toarray())) if mat.shape[0] else 1.0)
+            except Exception:
+                conds.append(float("inf"))
+            return old(mat, solver_type, symmetric=symmetric)
+        LS.linear_solver = spy
+        try:
+            orig = Iterate(problem, params, np.array(case["xh"]), np.array(case["yh"]))
+            method = newton_method(problem, params, orig, case["dt"], case["rho"], case["tau"])
+            cur, out = orig, []
+            for _ in range(3):
+                cur = method.step(cur).iterate
+                out.append(np.concatenate([cur.x, cur.y]))
+            return out
+        finally:
+            LS.linear_solver = old
+
+    def differ(a, b):
+        return not np.allclose(a, b, rtol=1e-7, atol=1e-7 * (1.0 + float(np.max(np.abs(a))) if len(a) else 1.0))
+
+    for k in range(N):
+        spec, trans, sc, xh, yh, x, y, dt, rho = gen_base(g, nmax=3, mmax=2)
+        if r.random() < 0.4:
+            dt, rho = dt * 4.0, rho * 4.0
+        case = {"spec": spec.to_json(), "sc": sc, "trans": trans, "xh": xh, "yh": yh, "dt": dt, "rho": rho,
+                "tau": r.choice([None, None, 0.5, 1.0]), "fmt": r.choice(["coo", "csr", "csc"])}
+        runs, conds = {}, []
+        try:
+            for nk in range(3):
+                for kind in range(4):
+                    runs[(nk, kind)] = run_one(case, kind, nk, conds)
+        except Exception as e:
+            stats["skipped_" + type(e).__name__] += 1
+            continue
+        if not conds or max(conds) > 1e6 or not all(np.all(np.isfinite(z)) for zs in runs.values() for z in zs):
+            stats["skipped_ill_conditioned"] += 1
+            continue
+        stats["compared"] += 1
+        msg = None
+        for nk in range(3):
+            for kind in range(1, 4):
+                for st in range(3):
+                    if msg is None and differ(runs[(nk, 0)][st], runs[(nk, kind)][st]):
+                        msg = ("kinds: with NewtonType.%s the %s step solver's iterate after Newton step %d differs from the Standard one: %r vs %r"
+                               % (NKINDS[nk], KINDS[kind], st + 1, runs[(nk, kind)][st].tolist(), runs[(nk, 0)][st].tolist()))
+        for kind in range(4):
+            for nk in (1, 2):
+                if msg is None and differ(runs[(0, kind)][0], runs[(nk, kind)][0]):
+                    msg = ("variants: with the %s step solver the first step of NewtonType.%s differs from Simplified: %r vs %r"
+                           % (KINDS[kind], NKINDS[nk], runs[(nk, kind)][0].tolist(), runs[(0, kind)][0].tolist()))
+        if msg:
+            stats["failures"] += 1
+            rep.failure("cross_solver:" + msg.split(":")[0], msg, {"kind": "cross_solver", "case": case, "what": msg})
+    rep.cov.setdefault("oracle", {})["cross_solver"] = dict(stats, note="real step solvers with the real LU solver compared with each other (C14 as stated); search, not proof")
+    rep.cov["evaluations"] += stats["compared"] * 12
